@@ -217,6 +217,9 @@ func Check(c *Case) (res kit.Result) {
 		if c.A > 0 {
 			res.Class("offsetParent")
 		}
+		if pos >= 1<<16 {
+			res.Class("positionBeyond65536")
+		}
 	}
 	if parent.Hdr() != ph {
 		res.Failf("parent header changed to %+v", parent.Hdr())
@@ -248,6 +251,24 @@ func Gen(t *rapid.T) *Case {
 	}
 	if rapid.IntRange(0, 2).Draw(t, "growSel") == 0 {
 		c.Grow = rapid.IntRange(1, 2*(c.Kr-c.B)+3).Draw(t, "grow")
+	}
+	if c.Grow == 0 && kit.Chance(t, "long", 1, 250) {
+		// a long parent: interleaved positions beyond 2^16 (2^17 rarely), probed around those boundaries and at the end
+		total := rapid.SampledFrom([]int{66000, 70001, 132000}).Draw(t, "longSamples")
+		c.Kr = total / c.C
+		c.A = rapid.IntRange(0, 2).Draw(t, "longA")
+		c.B = c.Kr - rapid.IntRange(0, 2).Draw(t, "longSpare")
+		c.Fix, c.Pre = 0, 0
+		for _, p := range []int{65536, 131072} {
+			i := p/c.C - c.A
+			for d := -1; d <= 1; d++ {
+				if i+d >= 0 && i+d < c.B-c.A {
+					c.Idx = append(c.Idx, i+d)
+				}
+			}
+		}
+		c.Idx = append(c.Idx, c.B-c.A-1, rapid.IntRange(0, c.B-c.A-1).Draw(t, "longIdx"))
+		return c
 	}
 	if fr := c.B - c.A; fr > 24 {
 		n := rapid.IntRange(1, 24).Draw(t, "nidx")
